@@ -229,6 +229,7 @@ func cmdFunc(args []string) int {
 	timeout := fs.Int("t", 10, "solver timeout (s)")
 	dump := fs.String("dump", "", "write the SMT query of obligations whose name contains this string to ./dump_<n>.smt2")
 	prop := fs.String("property", "", "property filter for tagged clauses")
+	policy := fs.String("policy", "", "call policy: shallow|lock")
 	fs.Parse(args)
 	w, err := loadWorld()
 	if err != nil {
@@ -250,7 +251,7 @@ func cmdFunc(args []string) int {
 		}
 		for _, n := range names {
 			start := time.Now()
-			rep := verifyFunc(w.prog, w.specs, w.funcs[n], verifyOpts{nopanic: *nopanic, lockDiscipline: *lock, property: *prop})
+			rep := verifyFunc(w.prog, w.specs, w.funcs[n], verifyOpts{nopanic: *nopanic, lockDiscipline: *lock, lockOnly: *lock, property: *prop, callPolicy: *policy})
 			fmt.Printf("== %s: %s %s (%d obligations, gen %.2fs)\n", n, rep.Status, rep.Err, len(rep.Obls), time.Since(start).Seconds())
 			res := solveAll(rep.Obls, *timeout, 0, false, 8)
 			for i, s := range res {
